@@ -93,7 +93,7 @@ func (c *Ctx) globalWrites() []gwrite {
 
 func r09_1(c *Ctx, r *Report) {
 	const rule = "R09.1"
-	r.rule(rule, "Package state inventory. No package-level variable of the library is stored to, or through (element, map entry, field of reachable memory), outside package initialisation, except the declared mutable set {calendar.CACHE_YEAR in NewLunarYear, HolidayUtil.dataInUse/namesInUse in Fix}; computed from the effects (E2) of every library function, with callee writes mapped onto caller arguments.")
+	r.rule(rule, "Package state inventory. No package-level variable of the library is stored to, or through (element, map entry, field of reachable memory), outside package initialisation, except the declared mutable set {calendar.CACHE_YEAR in NewLunarYear, HolidayUtil.dataInUse/namesInUse in Fix} and variables initialised once (stored only by an input-free function under one package-level sync.Once, every use following the Do); computed from the effects (E2) of every library function, with callee writes mapped onto caller arguments.")
 	writes := c.globalWrites()
 	writerSets := map[string]map[string]bool{}
 	for g, ws := range allowedGlobalWriters {
@@ -115,6 +115,10 @@ func r09_1(c *Ctx, r *Report) {
 		n++
 		name := gname(g)
 		bad := false
+		if reason, ok := c.onceBuilt(g, byGlobal[name]); ok {
+			r.ok(rule, "var "+name, c.pos(g.Pos()), reason)
+			continue
+		}
 		for _, w := range byGlobal[name] {
 			if reason, ok := allowedGlobalWriters[name][w.via]; ok {
 				r.ok(rule, "write to "+name+" in "+w.via, c.pos(w.pos), "declared mutable state: "+reason)
@@ -171,6 +175,10 @@ func r09_1(c *Ctx, r *Report) {
 		}
 		return a && b
 	})
+	control(r, rule, "once-initialised fx.lazyTab is accepted, fx.eagerTab (read without the Do in fx.EagerPeek) is not", func(fc *Ctx) bool {
+		m := fc.onceGlobals()
+		return m["fx.lazyTab"] && !m["fx.eagerTab"]
+	})
 }
 
 func sortedPosKeys(m map[string]token.Pos) []string {
@@ -222,6 +230,9 @@ func r09_3(c *Ctx, r *Report) {
 				g := strings.TrimPrefix(l.Root, "g:")
 				if _, ok := allowedGlobalWriters[g][l.Via]; ok {
 					continue
+				}
+				if c.onceGlobals()[g] {
+					continue // initialised once under a sync.Once (R09.1)
 				}
 			}
 			nbad++
